@@ -19,12 +19,20 @@ LIVE = ('created', 'running', 'waiting')
 
 
 class Cleanup:
-    def __init__(self, raises=False):
+    def __init__(self, raises=False, follow_up=None):
         self.calls = 0
         self.raises = raises
+        self.follow_up = follow_up  # (process, cleanup) registered while this one runs, i.e. while the process closes
+        self.follow_up_error = None
 
     def __call__(self):
         self.calls += 1
+        if self.follow_up is not None:
+            proc, other = self.follow_up
+            try:
+                proc.add_cleanup(other)
+            except Exception as exc:  # noqa: BLE001
+                self.follow_up_error = exc
         if self.raises:
             raise RuntimeError('cleanup failed (harness)')
 
@@ -50,6 +58,7 @@ class Exec:
         self.listener = None
         self.harness_errors = []
         self.communicator = None  # given to the process constructor (C16)
+        self.follow_up = None
         self.capture = None  # None, or a medium name: checkpoints are taken at every state entry
         self.checkpoints = []  # dicts {index, n_trace, state, waits, data | error}
         self.wait_base = 0  # waits that happened before this incarnation (restored runs)
@@ -117,7 +126,12 @@ class Exec:
         if self.attach_listener:
             self.listener = programs.ProgListener()
             proc.add_process_listener(self.listener)
+            if self.case.get('listener_twice'):
+                proc.add_process_listener(self.listener)  # registration is idempotent
         if not proc.has_terminated():
+            if self.case.get('cleanup_follow_up') and self.follow_up is None:
+                self.follow_up = Cleanup()
+                self.cleanups[0].follow_up = (proc, self.follow_up)
             for cleanup in self.cleanups:
                 proc.add_cleanup(cleanup)
 
@@ -245,6 +259,55 @@ class Exec:
             ran = self.tick(ev[1])
             self.events.append({'ev': ev, 'ran': ran})
             return None
+        if kind == 'cancel_task':
+            # the caller gives up waiting (e.g. asyncio.wait_for timed out): the task stepping the process is cancelled
+            if self.task is not None and not self.task.done():
+                with self.loop.as_running():
+                    self.task.cancel()
+            self.events.append({'ev': ev})
+            self.drain()
+            self.sample(kind)
+            return None
+        if kind == 'reload':
+            # checkpoint, abandon the instance, load the checkpoint into the same loop and carry on (only at quiescent
+            # points without a user step in flight: an in-flight step cannot be checkpointed)
+            self.drain()
+            done = False
+            if self.phase() in ('created', 'waiting', 'paused') and not self.loop.pending():
+                import pickle
+
+                from plumpy import persistence
+
+                old = self.proc
+                with self.loop.as_running():
+                    data = pickle.dumps(persistence.Bundle(old))
+                    if self.task is not None and not self.task.done():
+                        self.task.cancel()
+                self.drain()
+                with self.loop.as_running():
+                    proc = pickle.loads(data).unbundle(persistence.LoadSaveContext(loop=self.loop))
+                self.world.incarnation[proc.pid] = self.world.incarnation.get(proc.pid, 0) + 1
+                self.abandoned = getattr(self, 'abandoned', []) + [old]
+                self.follow_up = None
+                self.cleanups = [Cleanup(c.raises) for c in self.cleanups]
+                self.attach(proc)
+                self.launch_task()
+                done = True
+                serial = self._wait_serial()
+                if proc.state.value == 'waiting' and serial in self.delivered:
+                    # a wake-up that was delivered but not yet consumed lives in a future, which a checkpoint cannot
+                    # hold: external wake-ups are replayed after a restore (as C08 states)
+                    with self.loop.as_running():
+                        control(proc, 'resume', self.delivered[serial], who='replay')
+            self.events.append({'ev': ev, 'done': done})
+            self.sample(kind)
+            return None
+        if kind == 'restep':
+            if (self.task is None or self.task.done()) and not self.proc.has_terminated():
+                self.launch_task()
+            self.events.append({'ev': ev})
+            self.sample(kind)
+            return None
         if kind in ('open', 'wcfut'):
             with self.loop.as_running():
                 self.world.open_gate(self.proc.pid if kind == 'open' else ('wcfut', self.proc.pid), ev[1])
@@ -328,6 +391,9 @@ class Exec:
 
         fut = p.future()
         out = {
+            # read before the harness touches the future: True = its exception was never retrieved, which asyncio
+            # reports to the loop's exception handler whenever the future happens to be collected
+            'future_unretrieved': bool(getattr(fut, '_log_traceback', False)),
             'state': p.state.value,
             'terminated': p.has_terminated(),
             'future_done': fut.done(),
